@@ -3,6 +3,7 @@ import OrbitModel.Proofs.Uvarint
 import OrbitModel.Proofs.GenEqFrame
 import OrbitModel.Proofs.GenEqListener
 import OrbitModel.Proofs.GenEqDocs
+import OrbitModel.Proofs.GenEqLogQuery
 /-!
 # C12 — malformed network messages never crash a peer or change its state
 
@@ -101,5 +102,13 @@ theorem pinned_tree_panics (acl : Acl) :
   refine ⟨?_, ?_, Codec.frameGuardPinned_panics⟩
   · rw [syncPinned_null_panics]
   · rw [syncPinned_noidentity_panics]
+
+/-- an event log's listing and windows are taken over the entries whose payload is an operation: the
+`query` of the Go text of this run picks them out before it takes the window (after the `fix:` commit,
+finding F48: one validly signed entry with a payload that is not an operation made every listing END
+at it, silently — acknowledged writes after it were not listed; the garbage family injects one into
+event logs and queries) -/
+theorem event_log_windows_skip_what_is_not_an_operation_tied_to_go_text :
+    Gen.logQueryOrder = Order.logQuery := gen_logQuery_order
 
 end Orbit.C12
